@@ -195,6 +195,12 @@ WRAPPERS = [
     ("operands-from-caller-definition-below", "", "crate::m_late!(&v, 5)", "#[macro_export] macro_rules! m_late { ($v:expr, $x:expr) => { assert_struct!($v, S2 { a: >= $x, b: == $x + 2, .. }) }; }"),
     ("range-from-caller-definition-below", "", "crate::m_late!(&v, 5, 9)", "#[macro_export] macro_rules! m_late { ($v:expr, $lo:expr, $hi:expr) => { assert_struct!($v, S2 { a: $lo..=$hi, .. }) }; }"),
     ("field-path-from-caller-definition-below", "", "crate::m_late!(&v, a, b)", "#[macro_export] macro_rules! m_late { ($v:expr, $f:ident, $g:ident) => { assert_struct!($v, S2 { $f: 5, $g.clone(): 7, .. }) }; }"),
+    # a text that is not a valid regex reaching `=~` through a fragment / parentheses is an ordinary Like mismatch (the String impl
+    # answers false), with the other entries kept: not a panic of its own half-way through the assertion
+    ("invalid-regex-text-through-a-literal-fragment", 'macro_rules! m { ($v:expr, $re:literal) => { assert_struct!($v, S2 { a: 5, s: =~ $re, .. }) }; }', 'm!(&v, "(")', ""),
+    ("invalid-regex-text-through-an-expr-fragment", 'macro_rules! m { ($v:expr, $re:expr) => { assert_struct!($v, S2 { a: 5, s: =~ $re, .. }) }; }', 'm!(&v, "[a-")', ""),
+    ("invalid-regex-text-in-parentheses", "", 'assert_struct!(&v, S2 { a: 5, s: =~ ("("), .. })', ""),
+    ("invalid-regex-text-in-a-variable", "", 'let re = "("; assert_struct!(&v, S2 { a: 5, s: =~ re, .. })', ""),
     ("definition-in-another-module-file-order-reversed", "", "crate::zz::m_in_mod!(&v, On, 5)", "pub mod zz { #[macro_export] macro_rules! m_in_mod_impl { ($v:expr, $variant:ident, $x:expr) => {\n\n\n assert_struct!($v, crate::S2 { e: crate::Ev2::$variant, a: == $x, .. }) }; } pub use m_in_mod_impl as m_in_mod; }"),
 ]
 
